@@ -2059,8 +2059,10 @@ class latest(Stream):
     @gen.coroutine
     def cb(self):
         while True:
-            yield self.condition.wait()
-            [x] = self.next
+            if not self.next:
+                yield self.condition.wait()
+                continue
+            [x], self.next = self.next, []
             yield self._emit(x, self.next_metadata)
 
 
